@@ -22,6 +22,8 @@ const BLOB: &[u8] = b"\x7fELF-not-really-a-binary-but-64-bytes-of-opaque-content
 #[derive(Debug, Clone)]
 enum Ev {
     Send(Vec<u8>),
+    /// let what was sent so far reach the client as a chunk of its own before going on
+    Pause(u64),
     Close,
 }
 
@@ -62,6 +64,7 @@ fn start_server() -> Server {
                         let _ = c.write_all(&b);
                         let _ = c.flush();
                     }
+                    Ok(Ev::Pause(ms)) => std::thread::sleep(Duration::from_millis(ms)),
                     Ok(Ev::Close) => break,
                     Err(_) => break 'conn,
                 }
@@ -249,6 +252,24 @@ fn scenarios(tier: Tier) -> Vec<Scenario> {
                 let mut s = script_full(framing, &corrupt(body, j));
                 s.label = format!("{} with line {j} corrupt", s.label);
                 v.push(base("corrupt-line", Kind::Symbols, vec![s]));
+            }
+        }
+        // the body arrives as whole lines, then (after a pause, as a chunk of its own) part of the next line, then the
+        // connection closes: a truncated file whatever the framing says
+        let line_ends: Vec<usize> = body.iter().enumerate().filter(|(_, b)| **b == b'\n').map(|(i, _)| i + 1).filter(|e| *e < body.len()).collect();
+        for &b0 in &line_ends {
+            let next_end = body[b0..].iter().position(|c| *c == b'\n').map(|i| b0 + i + 1).unwrap_or(body.len());
+            for k in [b0 + 1, (b0 + next_end) / 2, next_end - 1] {
+                if k <= b0 || k >= next_end {
+                    continue;
+                }
+                for framing in ["close-delimited", "content-length"] {
+                    let head = if framing == "close-delimited" { head_close() } else { head_cl(body.len()) };
+                    let events = vec![Ev::Send(head), Ev::Send(body[..b0].to_vec()), Ev::Pause(25), Ev::Send(body[b0..k].to_vec()), Ev::Pause(25), Ev::Close];
+                    // close-delimited: by HTTP's rules a complete (shorter) body, which does not parse: never a winner
+                    let delivered = if framing == "close-delimited" { Some(body[..k].to_vec()) } else { None };
+                    v.push(base(&format!("lines-then-partial-line:{framing}"), Kind::Symbols, vec![Script { label: format!("200 {framing}, {b0} bytes of whole lines, pause, {} bytes of the next line, close", k - b0), events, delivered }]));
+                }
             }
         }
         let nofinal = &body[..body.len() - 1];
@@ -749,7 +770,7 @@ fn main() {
         let mut def = CheckDef::new(
             "C16",
             "fault_enumeration",
-            "every scenario of a finite script space is run against the real HttpSymbolSupplier over loopback TCP: connection cut after EVERY byte count of the body under content-length / chunked / close-delimited framing; every two-chunk split; 1-byte and 7-byte trickles; each line corrupted; missing final newline; a body with its own INFO URL line; a line longer than the parser window; error and redirect statuses; stall until the client timeout; client future dropped after each server event (at several split points) once the client has quiesced; pre-existing cache entry; unusable cache / tmp directories; two servers (first fails in 5 ways); failure-then-success histories; a file-size quota (RLIMIT_FSIZE in sandboxed workers) that cuts the cache copy at every byte from 0 to body + note (inside the body, exactly at its end, inside the note); the same cuts and cancellations for opaque file downloads (binary, extra debug info). After each run cache/ and tmp/ are walked; after each success a fresh supplier with a dead server reloads from the cache. distinct_nontrivial = distinct (scenario class, outcome, cache file count, tmp file count, cached size).",
+            "every scenario of a finite script space is run against the real HttpSymbolSupplier over loopback TCP: connection cut after EVERY byte count of the body under content-length / chunked / close-delimited framing; every two-chunk split; 1-byte and 7-byte trickles; each line corrupted; missing final newline; whole lines, a pause, part of the next line, close (the partial line arrives as a chunk of its own); a body with its own INFO URL line; a line longer than the parser window; error and redirect statuses; stall until the client timeout; client future dropped after each server event (at several split points) once the client has quiesced; pre-existing cache entry; unusable cache / tmp directories; two servers (first fails in 5 ways); failure-then-success histories; a file-size quota (RLIMIT_FSIZE in sandboxed workers) that cuts the cache copy at every byte from 0 to body + note (inside the body, exactly at its end, inside the note); the same cuts and cancellations for opaque file downloads (binary, extra debug info). After each run cache/ and tmp/ are walked; after each success a fresh supplier with a dead server reloads from the cache. distinct_nontrivial = distinct (scenario class, outcome, cache file count, tmp file count, cached size).",
         );
         def.assumptions = vec![
             "poll boundaries inside hyper/tokio are owned by the runtime and are not enumerated; cancellation points are 'after each server event, once the client made no progress for 20 ms' (the awaits of fetch_symbol_file: send(), each chunk())".into(),
